@@ -26,6 +26,8 @@
 (*                            second file ("twin.soy") declaring the entry *)
 (*                            template's namespace and added later, the    *)
 (*                            line is counted in the twin's text           *)
+(*   "source_per_file_name"   the same, looked up by file name, with a     *)
+(*                            second file added under the entry file's name*)
 (* TLC exports every case with its source lines and allowed lines; the     *)
 (* harness renders them with the real code.                                *)
 (***************************************************************************)
@@ -112,8 +114,13 @@ LibFailLine(depth) == CASE depth = 1 -> 46 [] depth = 2 -> 57 [] OTHER -> 68
 \* a third file declaring the SAME namespace as the entry file, made of very
 \* short lines so that a byte offset of the entry file falls on a much later
 \* line of the twin; added to the bundle before or after the entry file
-Twins == {"none", "first", "last"}
-TwinLines == <<"{namespace e}">> \o [i \in 1..120 |-> "//"] \o <<"{template .tw}", "t", "{/template}">>
+\* "first"/"last": same namespace, another file name; "namefirst"/"namelast":
+\* ANOTHER namespace but the SAME FILE NAME as the entry file (names are only
+\* labels for error messages: two files may carry one name)
+Twins == {"none", "first", "last", "namefirst", "namelast"}
+TwinNs(tw) == IF tw \in {"namefirst", "namelast"} THEN "{namespace e2}" ELSE "{namespace e}"
+TwinLinesOf(tw) == <<TwinNs(tw)>> \o [i \in 1..120 |-> "//"] \o <<"{template .tw}", "t", "{/template}">>
+TwinLines == TwinLinesOf("last")
 
 RECURSIVE OffsetOfLine(_, _)
 \* number of bytes before the first byte of line n (lines are ASCII, joined by one LF)
@@ -157,8 +164,9 @@ Fail == /\ (phase = "atnode" /\ d.depth = 0) \/ phase = "incallee"
         /\ reported' = [file |-> IF "callee_file" \in Dev THEN frameFile ELSE "entry.soy",
                         line |-> IF "innermost_frame_line" \in Dev THEN frameLine
                                  ELSE IF "line_from_other_source" \in Dev /\ d.depth > 0 THEN LibFailLine(d.depth)
-                                 ELSE IF "source_per_namespace" \in Dev /\ d.twin = "last"
-                                   THEN LineOfOffset(TwinLines, OffsetOfLine(EntryLines(d), bottomLine), 1)
+                                 ELSE IF \/ "source_per_namespace" \in Dev /\ d.twin = "last"
+                                         \/ "source_per_file_name" \in Dev /\ d.twin = "namelast"
+                                   THEN LineOfOffset(TwinLinesOf(d.twin), OffsetOfLine(EntryLines(d), bottomLine), 1)
                                  ELSE bottomLine]
         /\ UNCHANGED <<d, bottomLine, frameFile, frameLine>>
 
@@ -172,7 +180,7 @@ PositionOK == phase = "failed" => (reported.file = "entry.soy" /\ reported.line 
 LayoutSeparates == LibFailLine(d.depth) \notin PathLines(d) /\ Len(EntryLines(d)) < 40
 
 EmitCase == phase = "failed" =>
-  PrintT(ToJson([d |-> d, entry |-> EntryLines(d), lib |-> LibLines(d), twin |-> TwinLines,
+  PrintT(ToJson([d |-> d, entry |-> EntryLines(d), lib |-> LibLines(d), twin |-> TwinLinesOf(d.twin),
                  file |-> "entry.soy", lo |-> FirstBodyLine(d), hi |-> FailLast(d) + NWrap(d), node |-> NodeLine(d),
                  allowed |-> SetToSeq(AllowedLines(d))]))
 =============================================================================
